@@ -1,11 +1,50 @@
-(* TEMPORARY stub (replaced by the real correspondence once the model exists) *)
+(* Correspondence for C04: the harness prints the reads it fed to the REAL connection handler
+   (OptimizedConnectionHandler on a scripted stream over a real ShardedActorState), the cumulative
+   number of bytes the handler had written after every read, everything it wrote, and whether the
+   task panicked / hung; the model (Model/Conn.v over the mini backend Model/MiniExec.v) must write
+   the same bytes at the same reads.  For short streams the harness additionally ran every
+   segmentation into at most three reads on the implementation; the model re-checks every
+   segmentation into at most two reads against the output the implementation produced. *)
 From Coq Require Export NArith ZArith.
-From Coq Require Import List Bool String.
-From RV Require Export Lib.Hex Corr.Common.
+From Coq Require Import String List Bool.
+From RV Require Export Lib.Hex Model.Resp Model.Conn Model.MiniExec Corr.Common.
 Import ListNotations.
-Record cfg := mk_cfg { c_min : N; c_thr : N; c_max : N }.
+
 Inductive case :=
 | KSeg (c : cfg) (reads : list string) (cum : list N) (out : string) (dead : bool)
 | KAll (c : cfg) (stream out : string).
-Definition check (k : case) : bool := true.
+
+Fixpoint feed (g : cfg) (k : mconn) (reads : list bytes) : mconn * list N :=
+  match reads with
+  | [] => (k, [])
+  | r :: t =>
+    let k' := mon_read g k r in
+    let '(kf, l) := feed g k' t in
+    (kf, N.of_nat (List.length (wire (output _ _ k'))) :: l)
+  end.
+
+Fixpoint listN_eqb (a b : list N) : bool :=
+  match a, b with
+  | [], [] => true
+  | x :: a', y :: b' => (x =? y)%N && listN_eqb a' b'
+  | _, _ => false
+  end.
+
+Definition is_dead (k : mconn) : bool := match cstat _ _ k with Dead => true | _ => false end.
+
+Definition final_wire (g : cfg) (reads : list bytes) : bytes :=
+  wire (output _ _ (mrun g (filter (fun r => negb (match r with [] => true | _ => false end)) reads))).
+
+Definition check (k : case) : bool :=
+  match k with
+  | KSeg g reads cum out dead =>
+    let '(kf, l) := feed g (conn_init _ _ []) (map unhex reads) in
+    if dead then is_dead kf
+    else negb (is_dead kf) && listN_eqb l cum && bytes_eqb (wire (output _ _ kf)) (unhex out)
+  | KAll g stream out =>
+    let s := unhex stream in
+    let o := unhex out in
+    forallb (fun i => bytes_eqb (final_wire g [firstn i s; skipn i s]) o) (seq 0 (S (List.length s)))
+  end.
+
 Definition mismatches := mismatches_with check.
